@@ -162,6 +162,33 @@ def r10b(ctx):
 def r10c(ctx):
     a = an(ctx.F.one('mdb_shard::set_operations::set_operation'))
     set_operation_bookkeeping(ctx, a, 'R10c')
+    section_end_only_at_bookend(ctx, a, 'R10c')
+
+
+def section_end_only_at_bookend(ctx, a, rule):
+    """The record loaders of set_operation (`load_next` closures returning Result<Option<header>>) report the end of a
+    section — Ok(None) — only on the is_bookend() edge of a header they have just read from the reader: an input's
+    section must not be cut short by anything else (a footer count, a flag), or its remaining records are lost."""
+    n = 0
+    for cb in ctx.F.children(a.body):
+        if 'core::option::Option<' not in cb['locals'][0]['ty'] or 'core::result::Result<' not in cb['locals'][0]['ty']:
+            continue
+        ac = an(cb)
+        des = [c for c in ac.calls() if sg(ac.term(c).get('fn', '')).endswith('::deserialize')]
+        if not des:
+            continue
+        n += 1
+        te, fe = bool_edges(ac, lambda e: e[0] == 'call' and sg(e[1]).endswith('is_bookend') and any(ac.rooted_at(e[2][0], d) for d in des))
+        for (b, si, k, e) in ac.ret_sites():
+            if k != 'ok':
+                continue
+            for (sb, ssi, se) in ac.flow.sources(e[3][0][1], (b, si)):
+                if se[0] == 'agg' and se[2].endswith('Option::None'):
+                    site = sb if sb is not None else b
+                    ctx.check(bool(te) and ac.cfg.must_pass(site, via_edges=te), rule, cb['qpath'], 'end of section', ac.loc(site, ssi if sb is not None else si),
+                              'the loader reports the end of the section only on the is_bookend() edge of a header it has read',
+                              'a record loader of set_operation can report the end of a section without having reached the bookend: the remaining records of that input are silently dropped')
+    ctx.floor(rule, 'record loaders (load_next closures) in set_operation', n, 2)
 
 
 def _innermost_loop(a, b):
